@@ -44,16 +44,17 @@ func init() {
 }
 
 type c07Prog struct {
-	src      string
-	cfg      CaseCfg
-	e        *eval.Expr
-	bindings []Binding
-	expect   [][2]Outcome // per binding: Eval, TryEval
-	dump     string
-	table    string
-	snap     string
-	maxStack int16
-	events   bool
+	src       string
+	cfg       CaseCfg
+	e         *eval.Expr
+	bindings  []Binding
+	expect    [][2]Outcome // per binding: Eval, TryEval
+	dump      string
+	table     string
+	tableNoEv string
+	snap      string
+	maxStack  int16
+	events    bool
 }
 
 func outcomeEq(a, b Outcome) bool {
@@ -204,6 +205,7 @@ func c07Build(w *W, r *rand.Rand, k int) *c07Prog {
 	}
 	p.dump = iso.Dump
 	guard(func() (eval.Value, error) { p.table = eval.DumpTable(iso.E, false); return nil, nil })
+	guard(func() (eval.Value, error) { p.tableNoEv = eval.DumpTable(iso.E, true); return nil, nil })
 	p.snap, _ = progSnapshot(p.e)
 	return p
 }
@@ -336,9 +338,14 @@ func c07Run(w *W, idx int, race bool) {
 					}
 				default:
 					var t string
-					o := guard(func() (eval.Value, error) { t = eval.DumpTable(p.e, false); return nil, nil })
+					skip := gr.Intn(2) == 0
+					want := p.table
+					if skip {
+						want = p.tableNoEv
+					}
+					o := guard(func() (eval.Value, error) { t = eval.DumpTable(p.e, skip); return nil, nil })
 					res.calls[3]++
-					if o.Panic != nil || t != p.table {
+					if o.Panic != nil || t != want {
 						res.fails = append(res.fails, fmt.Sprintf("DumpTable returned a different text than in isolation (panic %v)\nsource: %s", o.Panic, p.src))
 						res.sigs = append(res.sigs, "call-result-differs-from-isolated/DumpTable")
 					}
